@@ -338,6 +338,8 @@ pub struct ExecCfg {
     pub points_on: bool,
     /// offer the 'stall here while everybody else runs' alternative at every point
     pub stalls_on: bool,
+    /// offer 'set the next task aside until nothing else is runnable' at every scheduling decision
+    pub postpone_on: bool,
     pub max_steps: usize,
     /// run the push loop with this interval
     pub push_interval_ms: Option<u64>,
@@ -350,7 +352,7 @@ pub struct ExecCfg {
 
 impl Default for ExecCfg {
     fn default() -> Self {
-        ExecCfg { caps: (0, 0), phase_us: 0, points_on: true, stalls_on: true, max_steps: 20_000, push_interval_ms: None, phase_choices: vec![], uptime_choices_ms: vec![] }
+        ExecCfg { caps: (0, 0), phase_us: 0, points_on: true, stalls_on: true, postpone_on: true, max_steps: 20_000, push_interval_ms: None, phase_choices: vec![], uptime_choices_ms: vec![] }
     }
 }
 
@@ -431,6 +433,7 @@ where
     let shared: Sh = Arc::new(Mutex::new(Shared::new(prefix.to_vec(), cfg.caps)));
     shared.lock().unwrap().points_on = cfg.points_on;
     shared.lock().unwrap().stalls_on = cfg.stalls_on;
+    shared.lock().unwrap().postpone_on = cfg.postpone_on;
     let want = if cfg.phase_choices.is_empty() {
         cfg.phase_us % 100_000
     } else {
